@@ -126,6 +126,24 @@ struct Hunk {
 
 const MARKER: &[u8] = b"\\ No newline at end of file\n";
 
+/// A writer that implements only `write` (so `write_vectored`, `write_all`, `write_fmt` are the
+/// std defaults) and accepts at most `max` bytes per call: short writes are within the
+/// `io::Write` contract, the bytes that arrive must not depend on them.
+struct ShortWriter {
+    out: Vec<u8>,
+    max: usize,
+}
+impl std::io::Write for ShortWriter {
+    fn write(&mut self, buf: &[u8]) -> std::io::Result<usize> {
+        let n = buf.len().min(self.max);
+        self.out.extend_from_slice(&buf[..n]);
+        Ok(n)
+    }
+    fn flush(&mut self) -> std::io::Result<()> {
+        Ok(())
+    }
+}
+
 fn parse_num(w: &[u8], pos: &mut usize) -> Result<usize, String> {
     let s = *pos;
     while *pos < w.len() && w[*pos].is_ascii_digit() {
@@ -379,6 +397,11 @@ impl C05 {
         let shown = ud.to_string();
         let mut w: Vec<u8> = vec![];
         ud.to_writer(&mut w).unwrap();
+        for max in [usize::MAX, 1, 3] {
+            let mut sw = ShortWriter { out: vec![], max };
+            ud.to_writer(&mut sw).unwrap();
+            claim!(sw.out == w, "to_writer into a writer that only implements write() and takes at most {} bytes per call delivers {:?}, into a Vec<u8> {:?}", max, String::from_utf8_lossy(&sw.out), String::from_utf8_lossy(&w));
+        }
         let res = check_udiff(&w, &old_lines, &new_lines, s.radius, s.header, inputs_equal);
         let nh = match res {
             Ok(n) => n,
@@ -403,6 +426,11 @@ impl C05 {
         for h in ud.iter_hunks() {
             cat.push_str(&h.to_string());
             h.to_writer(&mut catw).unwrap();
+            let mut sw = ShortWriter { out: vec![], max: 2 };
+            h.to_writer(&mut sw).unwrap();
+            let mut hv: Vec<u8> = vec![];
+            h.to_writer(&mut hv).unwrap();
+            claim!(sw.out == hv, "UnifiedDiffHunk::to_writer into a short-writing writer differs from the Vec<u8> output");
         }
         let strip = |x: &[u8]| -> Vec<u8> {
             if s.header && x.starts_with(b"--- a.txt\n+++ b.txt\n") { x[20..].to_vec() } else { x.to_vec() }
@@ -589,7 +617,7 @@ impl Prop for C05 {
                 "similar::group_diff_ops",
                 "similar::Change::{to_string_lossy, missing_newline, as_bytes via DiffableStr}",
             ],
-            bounds: format!("line texts of 0..={} lines per side (1-character contents, one 2-character variant), terminators LF / CRLF / CR (same on both sides, or LF against CRLF / CR) and texts whose lines cycle through LF, CRLF, CR, last line terminated or not, x 3 algorithms x context radius {} x {{no header, header, header + byte mode with a 0xFF byte in every line}}; the diff stage is symbolic (all equality patterns of the lines); the rendering stage has no data-dependent branch and is evaluated on one model of each path, parsed and applied by an independent strict parser; plus texts of more than 100 lines (TextDiffConfig's interning branch): 99..101 pairwise-different LF-terminated lines with a window of up to {} lines per side at the middle / end{} of the text, each window line a fresh symbolic line or a copy of the line just before / after the window, radius 0 / 1", match tier { Tier::Quick => 4, Tier::Thorough => 5 }, match tier { Tier::Quick => "0..=2", Tier::Thorough => "0..=3" }, match tier { Tier::Quick => 2, Tier::Thorough => 3 }, match tier { Tier::Quick => "", Tier::Thorough => " / front / near either end" }),
+            bounds: format!("line texts of 0..={} lines per side (1-character contents, one 2-character variant), terminators LF / CRLF / CR (same on both sides, or LF against CRLF / CR) and texts whose lines cycle through LF, CRLF, CR, last line terminated or not, x 3 algorithms x context radius {} x {{no header, header, header + byte mode with a 0xFF byte in every line}}; the diff stage is symbolic (all equality patterns of the lines); the rendering stage has no data-dependent branch and is evaluated on one model of each path, parsed and applied by an independent strict parser; the writer output is taken through a Vec<u8> and through writers that implement only write() and accept all / 1 / 3 bytes per call; plus texts of more than 100 lines (TextDiffConfig's interning branch): 99..101 pairwise-different LF-terminated lines with a window of up to {} lines per side at the middle / end{} of the text, each window line a fresh symbolic line or a copy of the line just before / after the window, radius 0 / 1", match tier { Tier::Quick => 4, Tier::Thorough => 5 }, match tier { Tier::Quick => "0..=2", Tier::Thorough => "0..=3" }, match tier { Tier::Quick => 2, Tier::Thorough => 3 }, match tier { Tier::Quick => "", Tier::Thorough => " / front / near either end" }),
             outside: "more lines; other mixes of terminators within one text than the LF/CRLF/CR cycle; missing_newline_hint(false); non-line diffs rendered as unified diffs; str/[u8] tokenization itself (C06)".into(),
             assumptions: vec![
                 "rendering copies line bytes without looking at them (true of the code: write_all(as_bytes) / to_string_lossy), so one model per path is exhaustive for that path".into(),
